@@ -19,5 +19,17 @@ UNIT = {
         {"fn": "remove_call_policy_check", "impl": r"impl Machine", "file": "src/machine/system_calls.rs", "emit_name": "Machine_remove_call_policy_check",
          "rewrites": STD + [("replace", "unsafe { self.deref_register(1).to_fixnum_or_cut_point_unchecked() }.get_num() as usize", "self.block_register()", "R7")],
          "wrap_pre": "impl Machine {\n", "wrap_post": "}\n"},
+        # the two builtins behind call_with_inference_limit/3 (src/machine/system_calls.rs): decoding of the registers around
+        # add_limit / remove_limit. R7: registers, number decoding and error construction are shims
+        {"fn": "install_inference_counter", "impl": r"impl Machine", "file": "src/machine/system_calls.rs", "emit_name": "Machine_install_inference_counter",
+         "rewrites": STD + [("replace", "Number::try_from((a2, &self.machine_st.arena.f64_tbl))", "number_of_cell(a2)", "R7"),
+                            ("replace", "u128::try_from(&*n).unwrap()", "u128_of_integer(n)", "R7"),
+                            ("replace", "unsafe { a1.to_fixnum_or_cut_point_unchecked() }.get_num() as usize", "block_of_cell(a1)", "R7"),
+                            ("macro_fn", "atom", "atom_of", "R5")],
+         "wrap_pre": "impl Machine {\n", "wrap_post": "}\n"},
+        {"fn": "remove_inference_counter", "impl": r"impl Machine", "file": "src/machine/system_calls.rs", "emit_name": "Machine_remove_inference_counter",
+         "rewrites": STD + [("replace", "unsafe { a1.to_fixnum_or_cut_point_unchecked() }.get_num() as usize", "block_of_cell(a1)", "R7"),
+                            ("replace", "arena_alloc!(Integer::from(count), &mut self.machine_st.arena)", "big_of_u128(count)", "R7")],
+         "wrap_pre": "impl Machine {\n", "wrap_post": "}\n"},
     ],
 }
